@@ -13,6 +13,7 @@ import (
 	"sort"
 	"strconv"
 	"strings"
+	"sync"
 	"time"
 
 	"verif/symgo"
@@ -146,6 +147,7 @@ type Harness struct {
 	UnwindCex bool
 	Workers   int
 	Quiet     bool
+	NoModel   map[string]bool
 }
 
 // Result of one harness.
@@ -159,6 +161,7 @@ type Result struct {
 type ReplayResult struct {
 	Cex      symgo.Cex
 	File     string
+	Observed []string
 	Verdict  string // native verdict
 	Confirms bool
 	Known    string // known-finding id when classified
@@ -192,7 +195,7 @@ func (c *Ctx) runEntry(prog *symgo.Program, h Harness, fn *ssa.Function) *Result
 	cfg := symgo.Config{
 		Name: h.Name, Entry: fn, Workers: workers, Solver: os.Getenv("VERIF_SOLVER"),
 		MaxSteps: h.MaxSteps, MaxPaths: h.MaxPaths, PanicOK: h.PanicOK, TimeoutMs: h.TimeoutMs, UnwindCex: h.UnwindCex,
-		Setup: func(in *symgo.Interp) { in.Params = h.Params },
+		Setup: func(in *symgo.Interp) { in.Params = h.Params; in.NoModel = h.NoModel },
 	}
 	if c.Thorough() {
 		cfg.CrossCheck = "z3-new"
@@ -282,6 +285,7 @@ func TestVerifReplay(t *testing.T) {
 		return rr, nil
 	}
 	rr.Verdict = string(m[1])
+	rr.Observed = observedLines(out)
 	switch {
 	case cex.ID == "panic":
 		rr.Confirms = strings.HasPrefix(rr.Verdict, "panic:")
@@ -292,6 +296,14 @@ func TestVerifReplay(t *testing.T) {
 		}
 	}
 	return rr, nil
+}
+
+func observedLines(out []byte) []string {
+	var obs []string
+	for _, m := range regexp.MustCompile(`(?m)^OBSERVE: (.*)$`).FindAllSubmatch(out, -1) {
+		obs = append(obs, string(m[1]))
+	}
+	return obs
 }
 
 func runTimeout(cmd *exec.Cmd, d time.Duration) ([]byte, error) {
@@ -318,6 +330,82 @@ func firstN(s string, n int) string {
 		return s[:n] + "..."
 	}
 	return s
+}
+
+// ValidateSamples replays witness inputs of completed ("ok") paths natively
+// and demands the same verdict and the same Observe log: the translator
+// validation of DESIGN 2.6. items maps harness names to generated items (nil
+// for repo harnesses).
+func (c *Ctx) ValidateSamples(o *Outcome, items map[string]*GenItem, max int) {
+	type pick struct {
+		r *Result
+		s symgo.PathSample
+	}
+	var picks []pick
+	step := 1
+	if len(o.Results) > max && max > 0 {
+		step = len(o.Results) / max
+	}
+	for i := 0; i < len(o.Results) && len(picks) < max; i += step {
+		r := o.Results[i]
+		// prefer the sample with most decisions
+		best := -1
+		for k, s := range r.Rep.Samples {
+			if s.Status == "ok" && (best < 0 || s.Decisions > r.Rep.Samples[best].Decisions) {
+				best = k
+			}
+		}
+		if best >= 0 {
+			picks = append(picks, pick{r, r.Rep.Samples[best]})
+		}
+	}
+	var mu sync.Mutex
+	var wg sync.WaitGroup
+	sem := make(chan bool, 8)
+	for _, p := range picks {
+		wg.Add(1)
+		sem <- true
+		go func(p pick) {
+			defer wg.Done()
+			defer func() { <-sem }()
+			cex := symgo.Cex{ID: "sample", Inputs: p.s.Inputs}
+			var rr ReplayResult
+			var err error
+			if it := items[p.r.H.Name]; it != nil {
+				rr, err = c.ReplayGen(it, p.r.H, cex)
+			} else {
+				rr, err = c.ReplayRepo(p.r.H, cex)
+			}
+			mu.Lock()
+			defer mu.Unlock()
+			if err != nil {
+				o.Broken = append(o.Broken, fmt.Sprintf("%s: sample replay failed: %v", p.r.H.Name, err))
+				return
+			}
+			if rr.Verdict != "ok" {
+				o.Broken = append(o.Broken, fmt.Sprintf("%s: a path the engine completed without violation gives %q natively on inputs %v: engine discrepancy", p.r.H.Name, rr.Verdict, p.s.Inputs))
+				return
+			}
+			if !sameLog(rr.Observed, p.s.Observed) {
+				o.Broken = append(o.Broken, fmt.Sprintf("%s: Observe logs differ between engine and native run on inputs %v: %v vs %v", p.r.H.Name, p.s.Inputs, p.s.Observed, rr.Observed))
+				return
+			}
+			o.Traces++
+		}(p)
+	}
+	wg.Wait()
+}
+
+func sameLog(a, b []string) bool {
+	if len(a) != len(b) {
+		return false
+	}
+	for i := range a {
+		if a[i] != b[i] {
+			return false
+		}
+	}
+	return true
 }
 
 // ---- known findings ----
